@@ -20,6 +20,10 @@ import (
 var c15NameRunes = []rune("abcXYZ019_-")
 
 func c15Name(r *rand.Rand) string {
+	if r.Intn(40) == 0 {
+		// a name the code base itself uses in a header comment of loaded files: still an ordinary placeholder name
+		return gen.Pick(r, []string{"MODULE", "MODULE", "module", "MODULES", "MODULE_"})
+	}
 	for {
 		n := 1 + r.Intn(5)
 		b := make([]rune, n)
@@ -27,9 +31,6 @@ func c15Name(r *rand.Rand) string {
 			b[i] = c15NameRunes[r.Intn(len(c15NameRunes))]
 		}
 		s := string(b)
-		if s == "MODULE" {
-			continue
-		}
 		return s
 	}
 }
@@ -166,6 +167,11 @@ func c15Sanitize(n *canon.Node) *canon.Node {
 	return n
 }
 
+// c15KeyNames: names of the current case whose value can be a hash-map key (string or keyword).
+var c15KeyNames []string
+
+const c15KeyMark = "\x01"
+
 // c15Recent holds names that earlier cases of this worker gave values to (bounded).
 var c15Recent []string
 
@@ -221,6 +227,13 @@ func c15Skeleton(r *rand.Rand, names []string, d int, used map[string]int) *cano
 	case 1:
 		m := map[string]*canon.Node{}
 		for i, e := range l {
+			if i == 0 && len(c15KeyNames) > 0 && r.Intn(3) == 0 {
+				// a placeholder in key position (its value is a string or a keyword)
+				kn := c15KeyNames[r.Intn(len(c15KeyNames))]
+				used[kn]++
+				m[c15KeyMark+kn] = e
+				continue
+			}
 			m[fmt.Sprintf("%sk%d", canon.Marker, i)] = e
 		}
 		return canon.Ma(m)
@@ -249,6 +262,11 @@ func c15Subst(n *canon.Node, vals map[string]*canon.Node) *canon.Node {
 	case canon.Map:
 		m := map[string]*canon.Node{}
 		for k, e := range n.M {
+			if strings.HasPrefix(k, c15KeyMark) {
+				if raw, ok := canon.RawKey(vals[k[len(c15KeyMark):]]); ok {
+					k = raw
+				}
+			}
 			m[k] = c15Subst(e, vals)
 		}
 		return canon.Ma(m)
@@ -264,6 +282,9 @@ func c15Render(r *rand.Rand, skel *canon.Node) string {
 	for i, t := range toks {
 		if i > 0 {
 			sb.WriteString(gen.Pick(r, []string{" ", " ", " ", "\n", " ; comment with $decoy )\n"}))
+		}
+		if strings.HasPrefix(t, "\""+c15KeyMark) && strings.HasSuffix(t, "\"") {
+			t = "$" + t[1+len(c15KeyMark):len(t)-1] // a placeholder in key position
 		}
 		sb.WriteString(t)
 	}
@@ -287,6 +308,12 @@ func runC15(c *fw.Ctx) {
 		}
 		sort.Strings(names)
 		used := map[string]int{}
+		c15KeyNames = c15KeyNames[:0]
+		for _, n := range names {
+			if raw, ok := canon.RawKey(vals[n]); ok && !strings.HasPrefix(raw, canon.Marker+"k") && !strings.ContainsAny(raw, "\n\r") {
+				c15KeyNames = append(c15KeyNames, n)
+			}
+		}
 		skel := c15Skeleton(r, names, r.Intn(4), used)
 		// remember (a bounded number of) names that have a value in this case for the cases that follow
 		for _, n := range names {
